@@ -62,6 +62,8 @@ for _n, _h in (('hmac-sha224@ssh.com', 'sha224'),
     _d = hashlib.new(_h).digest_size
     MACS[_n] = (_h, _d, _d, False)
 MACS['hmac-sha256-2@ssh.com'] = ('sha256', 32, 32, False)
+# Tectia: the original hmac-sha256@ssh.com uses a 16-byte key
+MACS['hmac-sha256@ssh.com'] = ('sha256', 16, 32, False)
 MACS['umac-64@openssh.com'] = ('umac', 16, 8, False)
 MACS['umac-128@openssh.com'] = ('umac', 16, 16, False)
 MACS['umac-64-etm@openssh.com'] = ('umac', 16, 8, True)
@@ -74,6 +76,12 @@ def kex_hash(kex_alg):
             return h
     if kex_alg.startswith('curve25519-sha256'):
         return 'sha256'
+    # RFC 5656 s6.2.1: hash by curve size
+    ecdh = {'ecdh-sha2-nistp256': 'sha256', 'ecdh-sha2-nistp384': 'sha384',
+            'ecdh-sha2-nistp521': 'sha512',
+            'ecdh-sha2-1.3.132.0.10': 'sha256'}
+    if kex_alg in ecdh:
+        return ecdh[kex_alg]
     raise WireError(f'unknown kex hash for {kex_alg}')
 
 
@@ -380,6 +388,7 @@ class Session:
         self.sc = Decoder('sc')
         self.session_id = None
         self.keylogs = []
+        self.first_kexinit = {}
 
     def keylog(self, rec):
         """rec from either endpoint; both must agree."""
@@ -397,6 +406,18 @@ class Session:
         dec = self.cs if direction == 'cs' else self.sc
         pk = dec.feed(data)
         for p in pk:
+            if p.type == 20 and direction not in self.first_kexinit:
+                # first KEXINIT of this side: strict-kex marker (OpenSSH
+                # PROTOCOL, "strict KEX"): both must offer it
+                n = int.from_bytes(p.payload[17:21], 'big')
+                names = p.payload[21:21 + n].split(b',')
+                self.first_kexinit[direction] = names
+                if len(self.first_kexinit) == 2:
+                    strict = (b'kex-strict-c-v00@openssh.com' in
+                              self.first_kexinit['cs'] and
+                              b'kex-strict-s-v00@openssh.com' in
+                              self.first_kexinit['sc'])
+                    self.cs.strict = self.sc.strict = strict
             if p.type == 52 and direction == 'sc':
                 # USERAUTH_SUCCESS: delayed compression starts
                 self.sc.auth_seen = True
